@@ -267,5 +267,22 @@ pub fn run(ctx: &Ctx) -> Vec<Eng> {
             a
         });
     }
+    // long sequences: default op = read(h0); up to k deviations (any other op) in 12 steps
+    let (hz, k) = (12usize, if ctx.thorough { 3 } else { 2 });
+    let cases = deviation_cases(hz, 5 * SLOTS - 1, k);
+    for v in variants() {
+        par_cases(&mut e, &cases, budget, |c, e| {
+            let mut seq = vec![2 * SLOTS; hz]; // read(h0)
+            for &(p, a) in c {
+                let a = a as usize;
+                seq[p as usize] = if a >= 2 * SLOTS { a + 1 } else { a };
+            }
+            e.executions += 1;
+            e.states += 1;
+            e.max_depth = e.max_depth.max(hz as u64);
+            e.transitions += run_seq(v, &seq, e);
+        });
+    }
+    e.bounds.push_str(&format!("; plus all 12-operation sequences within {} deviations of read(h0) repeated", k));
     vec![e]
 }
